@@ -12,6 +12,7 @@
   whose TZID is `k` — its inner content is property C13.
 -/
 import ICal.Lemmas.TzUse
+import ICal.Lemmas.BodiesTzUse
 namespace ICal.C18
 
 /-- The used set is exactly the set of TZID parameters found on any value (every element of a
@@ -108,6 +109,38 @@ theorem add_missing_idem (knows : Str → Bool) (t : Comp) :
   cases t
   simp [addMissing, Comp.name, Comp.props, Comp.subs]
 
+/-! ### the regenerated bodies (tools/py2lean.py, Gen/BodiesTzUse.lean) are the models
+
+  `Bodies.usedTzidsP`, `missingTzidsP`, `addMissingP` are the regenerated `Calendar.get_used_tzids`,
+  `get_missing_tzids`, `add_missing_timezones` with the external pieces of Model/TzUsePieces.lean given by name (the
+  same definitions the driver runs against icalendar).  A Python set is returned as a duplicate-free list in insertion
+  order; Python leaves the iteration order of a set unspecified, so the statements compare SORTED lists (the model is
+  sorted by construction).  `t.WF`: property keys are distinct (they are keys of a dict).  `tzDomainP t`: the model's
+  domain - no VTIMEZONE has a list-valued TZID. -/
+
+/-- regenerated `Calendar.timezones` (= `self.walk("VTIMEZONE")` with the default `select`) -/
+theorem body_timezones (t : Comp) : Gen.BodiesTzUse.Calendar_timezones t = timezones t :=
+  Bodies.timezones_eq t
+
+/-- regenerated `Calendar.get_used_tzids`: never raises; what it returns is a set (no duplicates) whose sorted
+    listing is the model's `usedTzids` -/
+theorem body_get_used_tzids (t : Comp) (hw : t.WF) :
+    ∃ l, Bodies.usedTzidsP t = .ok l ∧ l.Nodup ∧ sortStr l = usedTzids t :=
+  ⟨_, Bodies.usedTzidsP_eq t, Bodies.usedList_nodup t, Bodies.sort_usedList t hw⟩
+
+/-- regenerated `Calendar.get_missing_tzids`: never raises (KeyError of `tz_name` is guarded by `'TZID' in timezone`,
+    `discard` has no failure case); sorted it is the model's `missingTzids` -/
+theorem body_get_missing_tzids (t : Comp) (hw : t.WF) (hd : Bodies.tzDomainP t = true) :
+    ∃ l, Bodies.missingTzidsP t = .ok l ∧ l.Nodup ∧ sortStr l = missingTzids t :=
+  ⟨_, Bodies.missingTzidsP_eq t, Bodies.missingList_nodup t, Bodies.sort_missingList t hw hd⟩
+
+/-- regenerated `Calendar.add_missing_timezones`: for every provider `knows` the call does not raise (the ValueError
+    of `Timezone.from_tzid` is caught and the id skipped) and leaves the model's `addMissing knows t`: the ids are
+    visited in sorted order, each known one appended once -/
+theorem body_add_missing_timezones (knows : Str → Bool) (t : Comp) (hw : t.WF) (hd : Bodies.tzDomainP t = true) :
+    Bodies.addMissingP knows t = .ok (addMissing knows t) :=
+  Bodies.addMissingP_eq knows t hw hd
+
 /-! ### non-vacuity -/
 
 section examples
@@ -134,6 +167,9 @@ example : missingTzids cal = ["America/New_York", "Europe/Berlin", "X/Unknown"].
 example : tzNames (addMissing knows cal) =
     ["Asia/Tokyo", "Asia/Tokyo", "Unused/Zone", "America/New_York", "Europe/Berlin"].map String.toList := by decide
 example : missingTzids (addMissing knows cal) = ["X/Unknown".toList] := by decide
+example : Bodies.tzDomainP cal = true := by decide
+example : (Bodies.usedTzidsP cal).toOption.map sortStr = some (usedTzids cal) := by decide
+example : (Bodies.addMissingP knows cal).toOption.map tzNames = some (tzNames (addMissing knows cal)) := by decide
 
 end examples
 
